@@ -163,6 +163,19 @@ def packages():
                              ["-c", "cpp.nope1=1", "-c", "python.nope2=2", "-c", "json.nope3=3", "-c", "zzz=1", "-c", "aaa=2"])
     pk["valid-config-overrides"] = ({"cur/_package.yml": "namespace: Det\n" + OUT, "cur/m.yml": CUR},
                                     ["-c", "cpp.generateHDF5=false", "-c", "python.generateNDJson=false", "-c", "cpp.generateCMakeLists=false"])
+    # many imported namespaces, several reached along two paths (every collection of namespaces / references has >= 3 entries)
+    order = ["I1", "I2", "I3", "I4", "I5"]
+    imps = {}
+    for i, (n, deps) in enumerate((("I1", ()), ("I2", ("I1",)), ("I3", ("I1", "I2")), ("I4", ()), ("I5", ("I4", "I1")))):
+        imps["%s/_package.yml" % n.lower()] = "namespace: %s\n" % n + ("imports:\n" + "".join("  - ../%s\n" % d.lower() for d in deps) if deps else "")
+        body = "T%d: !record\n  fields:\n    v: int\n" % i
+        for d in deps:
+            body += "U%s%d: !record\n  fields:\n    r: %s.T%d\n" % (d, i, d, order.index(d))
+        imps["%s/m.yml" % n.lower()] = body
+    cur = "namespace: Det\nimports:\n  - ../i5\n  - ../i3\n  - ../i2\n  - ../i4\n  - ../i1\n" + OUT
+    model = ("M: !record\n  fields:\n    a: I1.T0\n    b: I2.T1\n    c: I3.T2\n    d: I4.T3\n    e: I5.T4\n    f: I3.UI12\n"
+             "Pi: !protocol\n  sequence:\n    m: M\n    s: !stream\n      items: I5.UI44\n")
+    pk["many-imports"] = (dict(imps, **{"cur/_package.yml": cur, "cur/m.yml": model}), [])
     return pk
 
 
